@@ -2,6 +2,7 @@ package engines
 
 import (
 	"context"
+	"errors"
 	"encoding/json"
 	"fmt"
 
@@ -32,6 +33,8 @@ type ActCase struct {
 	ExecVal string `json:"exec_val,omitempty"` // scripted kinds: name of the zoo value the exec phase produces (e.g. a value of type flyt.Action, empty or not)
 	NilEnd  bool   `json:"nil_end,omitempty"`  // flow kinds: the inner flow ends because its last node's action is connected to nil (not because it is unconnected)
 	PostByOption string `json:"post_by_option,omitempty"` // batch-post-by-option kind: the post function is handed to NewBatchNode as a constructor option ("result" / "any" form)
+	CancelInPrep bool `json:"cancel_in_prep,omitempty"` // batch kind: the context is cancelled inside the batch's own prep (the run may fail with the context's error; if it succeeds, its action is not empty)
+	EmptyLast bool `json:"empty_last,omitempty"` // routed: the (inert) connection on the empty action is made AFTER the others
 	SelfLoop bool `json:"self_loop,omitempty"` // routed: the connection on the expected action leads back to the node itself (its second visit returns "leave", which leads to the probe)
 }
 
@@ -76,6 +79,7 @@ func runActCase(cs *ActCase) (fs []finding) {
 		want = "default"
 	}
 	var node flyt.Node
+	runCtx := context.Background()
 	switch cs.Kind {
 	case "batch":
 		post := cs.Post
@@ -86,7 +90,14 @@ func runActCase(cs *ActCase) (fs []finding) {
 				bc.Items[i].K = 2
 			}
 		}
-		node = newBatchRun(bc).build()
+		br := newBatchRun(bc)
+		node = br.build()
+		if cs.CancelInPrep {
+			bc.Cancel = &CancelSpec{Kind: "cancel", InPrep: true}
+			cctx, cancel := context.WithCancel(context.Background())
+			defer cancel()
+			runCtx, br.cancel = cctx, cancel
+		}
 	case "batch-post-by-option":
 		// whatever the library does with a post function given as a constructor option (today: the batch's own default
 		// post stays in charge), a successful run reports a non-empty action
@@ -192,8 +203,11 @@ func runActCase(cs *ActCase) (fs []finding) {
 		}
 	}
 	if !cs.Routed {
-		act, err := flyt.Run(context.Background(), node, flyt.NewSharedStore())
+		act, err := flyt.Run(runCtx, node, flyt.NewSharedStore())
 		if err != nil {
+			if cs.CancelInPrep && errors.Is(err, context.Canceled) {
+				return // a cancelled batch may report the context's error
+			}
 			add("run-failed:"+cs.Kind, "run failed: %v", err)
 			return
 		}
@@ -209,7 +223,10 @@ func runActCase(cs *ActCase) (fs []finding) {
 	dEmpty := &probeNode{flyt.NewBaseNode(), &decoyEmpty}
 	dOther := &probeNode{flyt.NewBaseNode(), &decoyOther}
 	f := flyt.NewFlow(node)
-	f.Connect(node, "", dEmpty)
+	if !cs.EmptyLast {
+		f.Connect(node, "", dEmpty)
+	}
+	defer func() {}()
 	for _, a := range []string{"default", "custom", "done", " ", "\t\n", "earlier-custom"} {
 		if a == want {
 			if cs.SelfLoop {
@@ -222,7 +239,13 @@ func runActCase(cs *ActCase) (fs []finding) {
 			f.Connect(node, flyt.Action(a), dOther)
 		}
 	}
-	if err := f.Run(context.Background(), flyt.NewSharedStore()); err != nil {
+	if cs.EmptyLast {
+		f.Connect(node, "", dEmpty) // configured last: still a pair of its own that a successful run never selects
+	}
+	if err := f.Run(runCtx, flyt.NewSharedStore()); err != nil {
+		if cs.CancelInPrep && errors.Is(err, context.Canceled) {
+			return
+		}
 		add("flow-failed:"+cs.Kind, "flow failed: %v", err)
 		return
 	}
@@ -269,6 +292,7 @@ func runC18(c *Cfg) {
 					}
 				}
 				if routed {
+					cases = append(cases, &ActCase{Family: "grid-empty-action-connected-last", Kind: scen.KindNames[k], Post: post, Routed: true, FailAt: -1, EmptyLast: true})
 					cases = append(cases, &ActCase{Family: "grid-self-loop-on-the-reported-action", Kind: scen.KindNames[k], Post: post, Routed: true, FailAt: -1, SelfLoop: true})
 				}
 				// the node object has been used before and returned a custom action then
